@@ -14,27 +14,12 @@ Definition T0 : tables :=
                ([39;97;39]%N, PStr [97%N]); ([50]%N, PInt 2)] |}.
 Definition C0 : codec := codec_of T0.
 
-(* finding one-tuple-text: TupleOf(IntRange(0,5)): to_string((5,)) = "(5)" and from_string("(5)") raises WrongTypeError *)
-Theorem C02_refuted_one_tuple_text :
-  exists d v t, valid d v = true /\ to_string C0 d v = Ok t /\ render t = [40;53;41]%N /\
-                from_string C0 d t = Err EWrongType.
-Proof. exists (TTuple [TInt 0 5]), (PTuple [PInt 5]), (PP [PA [53%N]]). repeat split; vm_compute; reflexivity. Qed.
-
 (* finding float-negzero-text: the text "-0" of -0.0 maps to 0.0, whose text is "0" *)
 Theorem C02_refuted_negzero_text :
   exists d v t w t', valid d v = true /\ to_string C0 d v = Ok t /\ from_string C0 d t = Ok w /\
                      to_string C0 d w = Ok t' /\ str_eqb (render t) (render t') = false.
 Proof.
   exists (TFloat (fopp (of_Z 1)) (of_Z 1) fzero fzero), (PFloat fnegzero), (PA [45;48]%N), (PFloat fzero), (PA [48]%N).
-  repeat split; vm_compute; reflexivity.
-Qed.
-
-(* finding client-string-maxchars: StringType(3) rebuilt on the client refuses the valid value "hello" *)
-Theorem C02_refuted_client_string :
-  exists d dc v, valid d v = true /\ client_of d = Ok dc /\ dt_export C0 d v = Ok v /\
-                 dt_import E0 d v = Ok v /\ dt_import E0 dc v = Err ERange.
-Proof.
-  exists (TString 3 UNLIMITED false), (TString 3 3 false), (PStr [104;101;108;108;111]%N).
   repeat split; vm_compute; reflexivity.
 Qed.
 
